@@ -74,7 +74,11 @@ fn host_vs_language(n: usize, k0: u8, k1: u8) {
         i += 1;
     }
     let ident: Arc<str> = "f".into();
-    let in_language = check_args_with_params(&ident, &f.params, &as_instructions).is_ok();
+    // (results holding an `Error` are forgotten, not dropped: the drop glue of the crate's Error enum - pest and
+    //  io errors, boxed trait objects - is explored for every variant when its tag is not resolved)
+    let checked = check_args_with_params(&ident, &f.params, &as_instructions);
+    let in_language = checked.is_ok();
+    std::mem::forget(checked);
     let expected = n == 2 && k0 == 0 && k1 <= 1;
     assert!(in_language == expected);
     match f.clone().create_call(args) {
@@ -84,7 +88,10 @@ fn host_vs_language(n: usize, k0: u8, k1: u8) {
             let r = code.exec();
             assert!(matches!(&r, Ok(Variable::Int(v)) if *v == x));
         }
-        Err(_) => assert!(!expected),
+        Err(e) => {
+            std::mem::forget(e);
+            assert!(!expected);
+        }
     }
 }
 macro_rules! host_harness {
@@ -129,7 +136,10 @@ pub fn host_call_parameter_named_like_the_function() {
             let r = code.exec();
             assert!(matches!(&r, Ok(Variable::Int(v)) if *v == x));
         }
-        Err(_) => panic!("a well-typed host call was rejected"),
+        Err(e) => {
+            std::mem::forget(e);
+            panic!("a well-typed host call was rejected");
+        }
     }
     kani::cover!(true);
 }
